@@ -15,7 +15,7 @@ import random
 from ..lib import cbuild, tlc
 from ..lib.common import workdir, rmworkdir, seed, log, MachineryError
 from ..lib.report import Report
-from ..drivers import accdrv
+from ..drivers import accdrv, replaylib
 
 PID = 'C13'
 CV_FIXED = (0, 1, 2, 15, 16, 127, 128, 250, 251, 252, 253, 254, 255)
@@ -92,7 +92,7 @@ def binding(rep, tier, sd, wd):
         rep.violation(key,
                       'scenario %s: real run (%s) differs from the plain specification run in %s'
                       % (c['key'], clause.rpartition(':')[0], clause.rpartition(':')[2]),
-                      {k: c[k] for k in ('key',) + keys})
+                      {k: c[k] for k in ('key',) + keys + ('sc',)})
     rep.extra['binding'] = dict(scenarios=len(cases), kinds=kinds, loops_recognised=hit)
     return len(cases)
 
@@ -235,3 +235,90 @@ def run(tier):
     ]
     rmworkdir('c13')
     return rep.finish()
+
+
+BIND_KEYS = ('S', 'r', 'ov', 'tp', 'stops', 'fuel', 'obs')
+
+
+def _replay_oblig(rp, path, wd):
+    """The obligations of one accelerator entry (as it is in the tree now) at the recorded counter value, or of the DEC A loops
+    at the recorded value of A, with all iteration counts / edge positions of the thorough tier."""
+    accs, cvs, avs = [], [], []
+    if 'kind' in rp:
+        replaylib.need(rp, path, 'a')
+        avs = [rp['a']]
+    else:
+        replaylib.need(rp, path, 'name', 'counter_value')
+        accs = [a for a in accdrv.export_accelerators() if a['name'] == rp['name']]
+        cvs = [rp['counter_value']]
+        if not accs:
+            print('  accelerator %s is not in the table any more' % rp['name'])
+            return []
+    inp = dict(accs=accs, cvs=cvs, avs=avs, thorough=1, ks=[1, 2, 3, 5], xs=[0, 1, -1], lits=[1, 3], limroom=6)
+    p = os.path.join(wd, 'accs.json')
+    with open(p, 'w') as f:
+        json.dump(inp, f, separators=(',', ':'))
+    r = tlc.run(os.path.join(tlc.SPEC, 'load'), 'AccOblig', 'AccOblig.cfg', env={'ACCS': p}, tag='AccOblig', timeout=3000)
+    tlc.check_machinery(r, 'AccOblig')
+    total = len(accs) * len(cvs) + 4 * len(avs)
+    if r.distinct != 2 * total:
+        raise MachineryError('AccOblig: expected %d states, TLC found %d\n%s' % (2 * total, r.distinct, r.out[-2000:]))
+    found = []
+    for code, clause in sorted(set(r.fails)):
+        ai, cv = code // 1000, code % 1000
+        if ai > 900:
+            found.append('oblig:%s:%s: DEC A loop closed form (A=%d, carry=%d) differs from the plain Z80 run'
+                         % (('dec-a-jr', 'dec-a-jr', 'dec-a-jp', 'dec-a-jp')[ai - 901], clause, cv, ai % 2))
+        else:
+            found.append('oblig:%s:%s: counter value %d: fast-forward and plain execution of its own code bytes disagree' % (accs[ai - 1]['name'], clause, cv))
+    return found
+
+
+def replay(path):
+    """./check C13 --replay replays/C13-n.json : the obligations of the recorded accelerator entry again / the recorded scenario
+    on LoadTracer + both simulators again / the recorded tape made again and loaded by tap2sna under the recorded configurations
+    again; judged by AccOblig / PlayerCases / SnapGroups."""
+    d, rp = replaylib.load(path, PID)
+    wd = workdir('replay-c13')
+    cbuild.build()
+    key = str(d.get('key', ''))
+    if 'sc' in rp:
+        accdrv._skool()
+        c = accdrv.run_scenario(rp['sc'])
+        rs, fails = tlc.judge('load', 'PlayerCases', 'PlayerCases.cfg', [{k: c[k] for k in BIND_KEYS}], casefile=os.path.join(wd, 'player.json'))
+        if any(cl == 'spec-no-stop' for _, cl in fails):
+            raise MachineryError('scenario %s: the specification run does not reach the stop address' % c['key'])
+        found = ['bind:%s:%s: real run (%s) differs from the plain specification run in %s' % (c['key'], cl, cl.rpartition(':')[0], cl.rpartition(':')[2])
+                 for _, cl in fails]
+    elif 'runs' in rp:
+        replaylib.need(rp, path, 'key', 'start', 'expect')
+        if not rp['key'].startswith('probe/'):
+            replaylib.need(rp, path, 'regen', 'gen')
+        c = accdrv.replay_tape(os.path.join(wd, 't'), rp)
+        found = []
+        if c.get('skipped'):
+            print('  the tape does not load in the reference run any more (%s): nothing to compare' % c['skipped'])
+        elif not c['runs'] or c['runs'][0]['cfg'] != 'default' or c['runs'][0]['data'] != c['expect']:
+            print('  the tape does not load in the default configuration any more (%s): outside the property'
+                  % (c['dropped'] or (c['runs'] and c['runs'][0]['err'])))
+        else:
+            rs, fails = tlc.judge('load', 'SnapGroups', 'SnapGroups.cfg', [{k: c[k] for k in ('start', 'expect', 'runs')}],
+                                  casefile=os.path.join(wd, 'snap.json'))
+            for _, clause in fails:
+                cl, _, ri = clause.partition('@')
+                u = c['runs'][int(ri) - 1]
+                found.append('e2e:%s:%s:%s: tape %s (--start %d): pc %d sp %d R %d T %d %s' % (c['key'], cl, u['cfg'], c['key'], c['start'], u['pc'], u['sp'],
+                                                                                         u['r'], u['t'], u['err'][:120]))
+    elif key.startswith('oblig:') or 'counter_value' in rp or 'kind' in rp:
+        found = _replay_oblig(rp, path, wd)
+    elif 'tlc_output_tail' in rp:
+        found = []
+        for cfg in ('TapeDeck_p0.cfg', 'TapeDeck_p1.cfg'):
+            r = tlc.model_check('load', 'TapeDeckMC', cfg, timeout=600, coverage=False)
+            found += ['model:%s:%s' % (cfg.replace('.cfg', ''), inv) for inv in r.violated]
+    elif key.startswith('bind:'):
+        raise MachineryError('unusable replay file %s: written before scenarios were recorded with their cases' % path)
+    else:
+        raise MachineryError('unusable replay file %s: not an obligation, scenario or tape case' % path)
+    rmworkdir('replay-c13')
+    return replaylib.verdict(PID, path, found)
